@@ -40,6 +40,9 @@ const (
 	// BlockHeaderSize is the fixed size of each block header
 	BlockHeaderSize = 16
 
+	// MaxSwampNameSize is the longest swamp name the V3 header can describe (16-bit NameLength)
+	MaxSwampNameSize = 65535
+
 	// MaxKeySize is the largest key the entry format can store (16-bit key length)
 	MaxKeySize = 65535
 
@@ -63,6 +66,7 @@ var (
 	ErrCorruptedBlock    = errors.New("block checksum mismatch")
 	ErrCorruptedEntry    = errors.New("entry data corrupted")
 	ErrEmptyKey          = errors.New("entry key cannot be empty")
+	ErrNameTooLarge      = errors.New("swamp name too large: the header stores the name length in 16 bits")
 	ErrKeyTooLarge       = errors.New("entry key too large: the format stores the key length in 16 bits")
 	ErrDataTooLarge      = errors.New("entry data too large for the block format")
 	ErrFileClosed        = errors.New("file is closed")
